@@ -16,6 +16,14 @@ CLAIMED = {
         "Does not decide value domains (huge ints, Decimal text, time zones, microseconds).",
         "Trusted: Python class lattice of the stdlib types, lxml attribute storage; codec value behaviour is only partly covered (C18).",
         "DESIGN.md §4 C06"),
+    "C14": (
+        "taint analysis: string-builder flattening, quoted/predicate field detection, local def-use closure, interprocedural sink-parameter and query-return summaries (fixpoint)",
+        "Decides the mechanism of the property for every lookup: no run-time string reaches an XPath sink between quote characters or "
+        "directly after '=' in a predicate unless it is a constant, an integer, a member of a frozen literal collection or quoted by a function "
+        "whose definition excludes the quote character (guard or split+concat). All 1072 functions and ~300 sink call sites are enumerated on "
+        "every run. Does not decide XPath's own matching semantics nor which attribute each setter uses beyond make_xpath_query's table.",
+        "Trusted: lxml XPath evaluation; XPath 1.0 has no escape inside literals; callees resolved by name for derived sinks (only unambiguous names).",
+        "DESIGN.md §4 C14"),
 }
 
 NOT_APPLICABLE = {
